@@ -46,4 +46,34 @@ def filesOf (b : Bytes) (loc len : Nat) : List (Bytes × Bytes) := assemble b (e
 /-- identifiers of the sub-directories of the directory at (`loc`, `len`) -/
 def subdirsOf (b : Bytes) (loc len : Nat) : List Bytes := ((entries b loc len).filter isDirRec).map (·.ident)
 
+/-! ### the reader as a program (driver only): a canonical listing of one hierarchy
+
+  Used to tie this reader to an independently written one: the harness's Go ISO 9660 reader prints the
+  same listing for the image the real code generated; the two digests are compared on every explored tree. -/
+
+/-- what `assemble` collects, with sizes in place of contents: (is a directory, identifier, total size) -/
+def shape : List DirRec → Nat → List (Bool × Bytes × Nat)
+  | [], _ => []
+  | r :: rest, acc =>
+    if isDirRec r then (true, r.ident, 0) :: shape rest 0
+    else if isMulti r then shape rest (acc + r.extLen)
+    else (false, r.ident, acc + r.extLen) :: shape rest 0
+
+def entryLine (e : Bool × Bytes × Nat) : String :=
+  if e.1 then "S" ++ toHex e.2.1 ++ "\n" else "F" ++ toHex e.2.1 ++ ":" ++ toString e.2.2 ++ "\n"
+
+/-- depth-first, directories in record order -/
+def listing (b : Bytes) : Nat → List Bytes → Nat → Nat → List String
+  | 0, _, _, _ => ["FUEL\n"]
+  | fuel + 1, ids, loc, len =>
+    let es := entries b loc len
+    ("D" ++ String.join (ids.map (fun i => "/" ++ toHex i)) ++ "\n" ++ String.join ((shape es 0).map entryLine)) ::
+      ((es.filter isDirRec).map (fun r => listing b fuel (ids ++ [r.ident]) r.extLoc r.extLen)).flatten
+
+/-- the listing of one hierarchy of an image, starting from its volume descriptor -/
+def listingOf (b : Bytes) (joliet : Bool) : String :=
+  match rootRecord b joliet with
+  | none => "NOROOT"
+  | some r => String.join (listing b 64 [] r.extLoc r.extLen)
+
 end Ps3.Spec.IsoTree
